@@ -1715,6 +1715,81 @@ theorem src_programs_wellformed (kind : Kind) :
     wfDesign (ALV.Gen.C13.progOf kind) = true ∧ Linear (ALV.Gen.C13.progOf kind) := by
   rw [src_progOf_is_model]; exact thub_programs_wellformed kind
 
+/-! ### 15f. The scalar functions of lazy_auditory.py REGENERATED from the source
+
+`erb.gm90` / `erb.mg83` (the `Hz is None` branch with its refusal `freq < 7` and unit `Hz = 1`, the formula after
+it, the strategy table and its default = the strategy registered first) and `gammatone_erb_constants(n)` (`tnt`,
+the factorial quotient, the 3 dB constant) are translated by `harness/props/c13_tr.py` (typed expression
+translation: Python ints stay in `Nat`, an int meeting a float is converted, a float literal is the decimal
+`ofRat p q` it reads back as) and are the model's functions, as functions, at every number class.  Theorems 12a,
+12d, 12e are restated about the regenerated definitions. -/
+
+theorem src_erb_gm90_is_model {α : Type} [TrigField α] :
+    (ALV.Gen.C13.erb_gm90_tail : α → α → α) = erbGm90 := Src.erb_gm90
+theorem src_erb_mg83_is_model {α : Type} [TrigField α] :
+    (ALV.Gen.C13.erb_mg83_tail : α → α → α) = erbMg83 := Src.erb_mg83
+theorem src_erb_call_is_model {α : Type} [TrigField α] [LtTest α] :
+    (ALV.Gen.C13.erb_call : Option ErbStrategy → α → Option α → Except Unit α) = erbCall := Src.erb_call
+theorem src_gammatone_erb_constants_is_model {α : Type} [TrigField α] :
+    (ALV.Gen.C13.gammatone_erb_constants : ℕ → α × α) = gammatoneErbConstants := Src.gammatone_erb_constants
+
+/-- **C13.15g** theorem 12a (`erb_closed_forms`) about the regenerated formulas -/
+theorem src_erb_closed_forms (f Hz : ℝ) (h : Hz ≠ 0) :
+    ALV.Gen.C13.erb_gm90_tail f Hz = (247 / 10) * ((437 / 100000) * f + Hz) ∧
+    ALV.Gen.C13.erb_mg83_tail f Hz
+      = (623 / 100000000) * f ^ 2 / Hz + (9339 / 100000) * f + (2852 / 100) * Hz ∧
+    ALV.Gen.C13.erb_gm90_tail f 1 = (247 / 10) * ((437 / 100) * (f / 1000) + 1) ∧
+    ALV.Gen.C13.erb_mg83_tail f 1
+      = (623 / 100) * (f / 1000) ^ 2 + (9339 / 100) * (f / 1000) + 2852 / 100 := by
+  rw [src_erb_gm90_is_model, src_erb_mg83_is_model]; exact erb_closed_forms f Hz h
+
+/-- **C13.15h** theorem 12d (`erb_call`) about the regenerated call: the refusal below 7 without `Hz`, the unit 1
+from 7 on, the formula whatever the frequency with `Hz`; `st` omitted: the strategy registered first -/
+theorem src_erb_call (st : Option ErbStrategy) (f : ℝ) :
+    (f < 7 → ALV.Gen.C13.erb_call st f none = .error ()) ∧
+    (7 ≤ f → ALV.Gen.C13.erb_call st f none = .ok (erb (st.getD .gm90) f 1)) ∧
+    (∀ hz : ℝ, ALV.Gen.C13.erb_call st f (some hz) = .ok (erb (st.getD .gm90) f hz)) := by
+  rw [src_erb_call_is_model]; exact erb_call st f
+
+/-- **C13.15i** theorem 12e (`gammatone_erb_constants_closed_form`) about the regenerated function -/
+theorem src_gammatone_erb_constants_closed_form (n : ℕ) (hn : 1 ≤ n) :
+    (ALV.Gen.C13.gammatone_erb_constants n : ℝ × ℝ).1
+      = ((n - 1).factorial : ℝ) ^ 2 * 4 ^ (n - 1) / (Real.pi * ((2 * (n - 1)).factorial : ℝ)) ∧
+    0 < (ALV.Gen.C13.gammatone_erb_constants n : ℝ × ℝ).1 ∧
+    (ALV.Gen.C13.gammatone_erb_constants n : ℝ × ℝ).2 = 2 * Real.sqrt ((2 : ℝ) ^ ((1 : ℝ) / n) - 1) ∧
+    0 < (ALV.Gen.C13.gammatone_erb_constants n : ℝ × ℝ).2 ∧
+    (1 + ((ALV.Gen.C13.gammatone_erb_constants n : ℝ × ℝ).2 / 2) ^ 2) ^ n = 2 := by
+  rw [src_gammatone_erb_constants_is_model]
+  obtain ⟨h1, _, h3, h4, h5, h6⟩ := gammatone_erb_constants_closed_form n hn
+  exact ⟨h1, h3, h4, h5, h6⟩
+
+
+/-! ### 15j. `gammatone.sampled` REGENERATED from the source
+
+The body of `gammatone.sampled` (the scalar `A`, the two polynomials in `z ** -k` as dense coefficient lists, the call
+`(numerator / denominator).diff(n=eta-1, mul_after=-z)` = `diffNum … (eta - 1)` — the loop of `ZFilter.diff`, `eta - 1`
+passes of `diffStep`, which stays a hand model of lazy_filters.py —, `ZFilter(filt.numpoly) / denominator`,
+`1 / denominator`, the two divisions by the measured gain `abs(f.freq_response(freq))` = `normalise`, the cascade
+`[f0] + [fn] * (eta - 1)`) and the defaults `phase=0, eta=4` of its `def` line are translated and are the model's
+`gammatoneSampled` / `gammatoneSampledCall`, as functions.  7k (every section: unit gain at the centre frequency, poles
+`A·e^{±jf}`) is restated about the regenerated definition; the closed form 7g of the differentiated numerator is about
+`diffNum` on the very coefficient lists the regenerated body builds. -/
+
+theorem src_gammatone_sampled_is_model {α : Type} [TrigField α] [ZeroTest α] :
+    (ALV.Gen.C13.gammatone_sampled : α → α → α → ℕ → List (Coefs α)) = gammatoneSampled := Src.gammatone_sampled
+theorem src_gammatone_sampled_call_is_model {α : Type} [TrigField α] [ZeroTest α] :
+    (ALV.Gen.C13.gammatone_sampled_call : α → α → Option α → Option ℕ → List (Coefs α)) = gammatoneSampledCall :=
+  Src.gammatone_sampled_call
+
+/-- **C13.15k** theorem 7k (`gammatone_sampled_all_sections`) about the regenerated body -/
+theorem src_gammatone_sampled_all_sections (f bw φ : ℝ) (eta : ℕ) (h0 : 0 < f) (h1 : f < Real.pi)
+    (hbw : 0 < bw) :
+    (ALV.Gen.C13.gammatone_sampled f bw φ eta).length = eta - 1 + 1 ∧ Real.exp (-bw) < 1 ∧
+    ∀ s ∈ ALV.Gen.C13.gammatone_sampled f bw φ eta, magSq s f = 1 ∧
+      ∀ p : ℂ, IsPole s p ↔ p = Real.exp (-bw) * Complex.exp (I * f) ∨
+                           p = Real.exp (-bw) * Complex.exp (-(I * f)) := by
+  rw [src_gammatone_sampled_is_model]; exact gammatone_sampled_all_sections f bw φ eta h0 h1 hbw
+
 -- 15c / 15d on a concrete input: lowpass.pole regenerated, read twice with a two-valued cut-off Stream
 example : (runReads (argSeq [(1 : Float), 2] [0.5]) (ALV.Gen.C13.progOf (.lowpass .pole)) [0, 0] Pos.init).length = 2 := rfl
 
